@@ -29,6 +29,12 @@ pub struct World {
     pub obst: Vec<Obst>,
     /// if set, states farther than r from c are invalid (start sealed in)
     pub only_inside: Option<(Vec<f64>, f64)>,
+    /// balls measured with the *space's own* distance: invalid iff space.distance(s, c) <= r.
+    /// Only the logging checker (which owns the real space) evaluates them; they exist so that
+    /// the Python differential (C19) has bit-identical obstacles on both sides. `World::valid`
+    /// ignores them.
+    #[serde(default)]
+    pub sballs: Vec<(Vec<f64>, f64)>,
 }
 
 impl Obst {
@@ -66,6 +72,6 @@ impl World {
         !self.obst.iter().any(|o| o.hits(cfg, s))
     }
     pub fn is_free(&self) -> bool {
-        self.obst.is_empty() && self.only_inside.is_none()
+        self.obst.is_empty() && self.only_inside.is_none() && self.sballs.is_empty()
     }
 }
